@@ -82,7 +82,10 @@ func checkC02(c *ev.Ctx) {
 		if bs > 0 && int64(len(run.Data)) > bs {
 			wantBlocks = int((int64(len(run.Data)) + bs - 1) / bs)
 		}
-		if len(s.Blocks) != wantBlocks {
+		// every block except the last holds exactly BlockSize bytes and the last at most
+		// BlockSize (checked below); that leaves ceil(n/BlockSize) blocks, or one more if
+		// an empty last block is emitted, which the statement does not forbid
+		if len(s.Blocks) != wantBlocks && !(bs > 0 && len(s.Blocks) == wantBlocks+1 && s.Blocks[len(s.Blocks)-1].UncLen == 0) {
 			fail("block-count", fmt.Sprintf("%d blocks for %d bytes with BlockSize %d, want %d", len(s.Blocks), len(run.Data), bs, wantBlocks))
 		}
 		var st ref.Stats
@@ -91,8 +94,8 @@ func checkC02(c *ev.Ctx) {
 			if bs > 0 && bi < len(s.Blocks)-1 && int64(b.UncLen) != bs {
 				fail("block-size", fmt.Sprintf("block %d of %d holds %d bytes, configured BlockSize %d", bi, len(s.Blocks), b.UncLen, bs))
 			}
-			if b.HeaderPad > 3 {
-				fail("header-padding", fmt.Sprintf("block header padding of %d bytes", b.HeaderPad))
+			if bs > 0 && int64(b.UncLen) > bs {
+				fail("block-size", fmt.Sprintf("block %d holds %d bytes, more than the configured BlockSize %d", bi, b.UncLen, bs))
 			}
 			if b.Stats.MaxDist > b.DictSize {
 				fail("dict-too-small", fmt.Sprintf("declared dictionary %d < distance %d", b.DictSize, b.Stats.MaxDist))
